@@ -1,20 +1,97 @@
 //! C07: surface views are exact, non-aliasing windows onto their parent surface.
 //!
-//! For every case (root size, chain of view/transpose steps with selectors of every form and integer
-//! type, a mix of carriers: owned, `&`, `&mut`, nested `view_owned`, `view`/`view_mut`, `as_ref`/`as_mut`,
-//! `Arc`, `Box`) every accessor is run on the REAL surface types and
+//! For every case (root size, `new_with` or `from_vec` root, chain of view/transpose steps with selectors
+//! of every form and integer type, a mix of carriers: owned, `&`, `&mut`, nested `view_owned`,
+//! `view`/`view_mut`, `as_ref`/`as_mut`, `parts()` + `SurfaceView::new`/`SurfaceMutView::new` as in
+//! `Layout::apply_to`, `Arc`, `Box`) every accessor is run on the REAL surface types and
 //!   * compared with the Lean model `SurfModel.Shape` (correspondence lines; offsets are recovered from
-//!     the ADDRESSES of the references handed out: `(addr - base) / size_of::<T>()`),
+//!     the ADDRESSES of the references handed out, relative to `Surface::data()` of the view — which the
+//!     trait documents to be the parent's whole slice, and which is cross-checked against the root whenever
+//!     the root is borrowed: `(addr - data().as_ptr()) / size_of::<E>()`),
 //!   * judged by an independent list-of-lists oracle (`Vec<Vec<id>>`, Python slicing, matrix transpose),
 //!   * and, for the window itself, by the verified Lean specification `specChain` (oracle lines).
+//! Element types: `u32`, a 5-byte struct of alignment 1, a type that counts constructions and drops, and
+//! (separately, counts only) the zero-sized `()`.
+//! The main run uses the debug profile; the quick case list is repeated in a release-profile child (no
+//! overflow checks, no debug assertions; oracle only), and the thorough tier adds a Miri run (support only).
 use serde_json::{Value, json};
+use std::cell::Cell;
 use std::sync::Arc;
-use surf_n_term::surface::{Surface, SurfaceMut, SurfaceOwned, ViewBounds};
+use surf_n_term::surface::{Surface, SurfaceMut, SurfaceMutView, SurfaceOwned, SurfaceView, ViewBounds};
 use surf_n_term::{Position, Size};
 use verif_harness::{Cfg, r#gen::Rng, guarded, out::Out};
 
+/// value of a cell as seen by the oracle and the model
 type T = u32;
-const SZ: usize = std::mem::size_of::<T>();
+
+/// element types the surfaces are instantiated with; `id` is the value the cell carries
+trait Elem: Clone + Default + 'static {
+    fn mk(id: T) -> Self;
+    fn id(&self) -> T;
+    /// constructions minus drops so far (only the counting type tracks it)
+    fn live() -> i64 {
+        0
+    }
+}
+impl Elem for u32 {
+    fn mk(id: T) -> Self {
+        id
+    }
+    fn id(&self) -> T {
+        *self
+    }
+}
+/// size 5, alignment 1: element addresses are not multiples of a power of two
+#[derive(Clone, Default)]
+struct Odd5([u8; 5]);
+impl Elem for Odd5 {
+    fn mk(id: T) -> Self {
+        let b = id.to_le_bytes();
+        Odd5([b[0], b[1], b[2], b[3], 0xA5])
+    }
+    fn id(&self) -> T {
+        T::from_le_bytes([self.0[0], self.0[1], self.0[2], self.0[3]])
+    }
+}
+thread_local! {
+    static LIVE: Cell<i64> = const { Cell::new(0) };
+}
+/// counts constructions and drops: a cell dropped twice or leaked by an accessor shows in the balance
+struct Counted(T);
+impl Counted {
+    fn born(id: T) -> Self {
+        LIVE.with(|l| l.set(l.get() + 1));
+        Counted(id)
+    }
+}
+impl Clone for Counted {
+    fn clone(&self) -> Self {
+        Counted::born(self.0)
+    }
+}
+impl Default for Counted {
+    fn default() -> Self {
+        Counted::born(0)
+    }
+}
+impl Drop for Counted {
+    fn drop(&mut self) {
+        LIVE.with(|l| l.set(l.get() - 1));
+    }
+}
+impl Elem for Counted {
+    fn mk(id: T) -> Self {
+        Counted::born(id)
+    }
+    fn id(&self) -> T {
+        self.0
+    }
+    fn live() -> i64 {
+        LIVE.with(|l| l.get())
+    }
+}
+const ELEMS: [&str; 4] = ["u32", "odd5", "counted", "zst"];
+
 const TYPES: [&str; 10] = ["i8", "u8", "i16", "u16", "i32", "u32", "i64", "u64", "isize", "usize"];
 
 fn ty_range(ty: u8) -> (i128, i128) {
@@ -122,10 +199,14 @@ struct Step {
 struct Case {
     h: usize,
     w: usize,
+    /// cells of the root beyond `h * w` (`SurfaceOwned::from_vec` needs at least one); 0 = `new_with`
+    extra: usize,
+    /// element type, index into `ELEMS`
+    elem: u8,
     steps: Vec<Step>,
-    /// 0: root moved into the chain, 1: chain built on `&mut root` / `&root`
+    /// 0: root moved into the chain, 1: chain built on `&mut root` / `&root`; +2: immutable accessor on mutable carriers
     root_kind: u8,
-    /// accessor: grid iter itermut nth nthmut fill clear fillwith insert insertwrap map toowned set
+    /// accessor: grid gridmut iter itermut nth nthmut fill clear fillwith insert inserthuge insertwrap map toowned set
     acc: String,
     args: Vec<usize>,
     items: Vec<T>,
@@ -147,7 +228,8 @@ impl Case {
     }
     fn to_json(&self) -> Value {
         json!({
-            "h": self.h, "w": self.w, "root_kind": self.root_kind, "acc": self.acc, "args": self.args, "items": self.items,
+            "h": self.h, "w": self.w, "extra": self.extra, "elem": ELEMS[self.elem as usize],
+            "root_kind": self.root_kind, "acc": self.acc, "args": self.args, "items": self.items,
             "chain": self.chain_token(),
             "steps": self.steps.iter().map(|s| match s.op {
                 Op::Transpose => json!({"op": "T", "kind": s.kind}),
@@ -169,12 +251,17 @@ impl Case {
         Some(Case {
             h: v["h"].as_u64()? as usize,
             w: v["w"].as_u64()? as usize,
+            extra: v["extra"].as_u64().unwrap_or(0) as usize,
+            elem: ELEMS.iter().position(|e| Some(*e) == v["elem"].as_str()).unwrap_or(0) as u8,
             steps,
             root_kind: v["root_kind"].as_u64()? as u8,
             acc: v["acc"].as_str()?.to_string(),
             args: v["args"].as_array()?.iter().filter_map(|x| x.as_u64().map(|x| x as usize)).collect(),
             items: v["items"].as_array()?.iter().filter_map(|x| x.as_u64().map(|x| x as T)).collect(),
         })
+    }
+    fn cells(&self) -> usize {
+        self.h * self.w + self.extra
     }
 }
 
@@ -250,15 +337,15 @@ fn spec_window(case: &Case) -> Mat {
 // ---------------------------------------------------------------------------------------------
 // running a chain on the real surface types
 // ---------------------------------------------------------------------------------------------
-type DynMut<'a> = Box<dyn SurfaceMut<Item = T> + 'a>;
-type DynRef<'a> = Box<dyn Surface<Item = T> + 'a>;
+type DynMut<'a, E> = Box<dyn SurfaceMut<Item = E> + 'a>;
+type DynRef<'a, E> = Box<dyn Surface<Item = E> + 'a>;
 
-const MUT_VIEW_KINDS: u8 = 5;
+const MUT_VIEW_KINDS: u8 = 6;
 const MUT_T_KINDS: u8 = 3;
-const REF_VIEW_KINDS: u8 = 5;
+const REF_VIEW_KINDS: u8 = 6;
 const REF_T_KINDS: u8 = 4;
 
-fn chain_mut<'a>(mut s: DynMut<'a>, steps: &[Step], k: &mut dyn for<'b> FnMut(DynMut<'b>)) {
+fn chain_mut<'a, E: Elem>(mut s: DynMut<'a, E>, steps: &[Step], k: &mut dyn for<'b> FnMut(DynMut<'b, E>)) {
     let Some((step, rest)) = steps.split_first() else {
         return k(s);
     };
@@ -271,9 +358,14 @@ fn chain_mut<'a>(mut s: DynMut<'a>, steps: &[Step], k: &mut dyn for<'b> FnMut(Dy
                 let mut m = SurfaceMut::as_mut(&mut s);
                 chain_mut(Box::new(m.view_mut(r, c)), rest, k)
             }
-            _ => {
-                let inner: &mut dyn SurfaceMut<Item = T> = &mut *s;
+            4 => {
+                let inner: &mut dyn SurfaceMut<Item = E> = &mut *s;
                 chain_mut(Box::new(inner.as_mut().view_owned(r, c)), rest, k)
+            }
+            _ => {
+                // the crate's own use of the public constructor: `Layout::apply_to` (src/view/layout.rs)
+                let (shape, data) = SurfaceMut::as_mut(&mut s).parts();
+                chain_mut(Box::new(SurfaceMutView::new(shape.view(r, c), data)), rest, k)
             }
         },
         Op::Transpose => match step.kind % MUT_T_KINDS {
@@ -284,7 +376,7 @@ fn chain_mut<'a>(mut s: DynMut<'a>, steps: &[Step], k: &mut dyn for<'b> FnMut(Dy
     }
 }
 
-fn chain_ref<'a>(s: DynRef<'a>, steps: &[Step], k: &mut dyn for<'b> FnMut(DynRef<'b>)) {
+fn chain_ref<'a, E: Elem>(s: DynRef<'a, E>, steps: &[Step], k: &mut dyn for<'b> FnMut(DynRef<'b, E>)) {
     let Some((step, rest)) = steps.split_first() else {
         return k(s);
     };
@@ -294,7 +386,11 @@ fn chain_ref<'a>(s: DynRef<'a>, steps: &[Step], k: &mut dyn for<'b> FnMut(DynRef
             1 => chain_ref(Box::new(s.view(r, c)), rest, k),
             2 => chain_ref(Box::new((&s).view_owned(r, c)), rest, k),
             3 => chain_ref(Box::new(Arc::new(s).view_owned(r, c)), rest, k),
-            _ => chain_ref(Box::new(Surface::as_ref(&s).view(r, c)), rest, k),
+            4 => chain_ref(Box::new(Surface::as_ref(&s).view(r, c)), rest, k),
+            _ => {
+                let (shape, data) = Surface::as_ref(&s).parts();
+                chain_ref(Box::new(SurfaceView::new(shape.view(r, c), data)), rest, k)
+            }
         },
         Op::Transpose => match step.kind % REF_T_KINDS {
             0 => chain_ref(Box::new(s.transpose()), rest, k),
@@ -305,12 +401,17 @@ fn chain_ref<'a>(s: DynRef<'a>, steps: &[Step], k: &mut dyn for<'b> FnMut(DynRef
     }
 }
 
-fn new_root(h: usize, w: usize) -> SurfaceOwned<T> {
-    SurfaceOwned::new_with(Size::new(h, w), |pos| (pos.row * w + pos.col + 1) as T)
+/// `new_with` root, or a `from_vec` root with `extra` cells behind the matrix; `data[i] = i + 1`
+fn new_root<E: Elem>(h: usize, w: usize, extra: usize) -> SurfaceOwned<E> {
+    if extra == 0 {
+        SurfaceOwned::new_with(Size::new(h, w), |pos| E::mk((pos.row * w + pos.col + 1) as T))
+    } else {
+        SurfaceOwned::from_vec(Size::new(h, w), (0..h * w + extra).map(|i| E::mk((i + 1) as T)).collect())
+    }
 }
 
 fn tf(r: usize, c: usize, x: T) -> T {
-    1000 + x * 100 + (r as T) * 10 + c as T
+    1000u32.wrapping_add(x.wrapping_mul(100)).wrapping_add((r as T) * 10).wrapping_add(c as T)
 }
 
 /// what one accessor run observed (everything the correspondence and the oracle look at)
@@ -319,68 +420,74 @@ struct Obs {
     height: usize,
     width: usize,
     is_empty: bool,
-    /// probes of `get` over (height+2) x (width+2): Some((offset, value)) / None; same for get_mut
+    /// the operation panicked (the canvas is then the root's, read after unwinding)
+    panicked: bool,
+    /// probes of `get` / `get_mut` over (height+2) x (width+2): Some((offset, value)) / None
     grid: Vec<Option<(usize, T)>>,
-    grid_mut: Vec<Option<(usize, T)>>,
     /// items handed out by an iterator: (offset from address, value)
     items: Vec<Option<(usize, T)>>,
     /// positions reported by `with_position`
     positions: Vec<(usize, usize)>,
     /// closure calls of fill_with / map: (row, col, offset)
     calls: Vec<(usize, usize, usize)>,
-    /// result data of map / to_owned_surf with its size
+    /// result data of map / to_owned_surf with its size; old value returned by set
     mapped: Vec<T>,
     mapped_size: (usize, usize),
-    /// whole backing slice after the operation (through `Surface::data` of the view)
+    /// whole backing slice after the operation
     canvas: Vec<T>,
-    /// a reference that does not point into the backing slice at an element boundary
-    bad_address: Option<String>,
+    /// a reference that does not point into the backing slice at an element boundary, a view whose data()
+    /// is not the parent's slice, or an unbalanced construction/drop count
+    bad: Option<String>,
 }
 
 struct Addr {
     base: usize,
     len: usize,
+    sz: usize,
 }
 impl Addr {
-    fn of(data: &[T]) -> Self {
-        Addr { base: data.as_ptr() as usize, len: data.len() }
+    fn of<E>(data: &[E]) -> Self {
+        Addr { base: data.as_ptr() as usize, len: data.len(), sz: std::mem::size_of::<E>() }
     }
-    fn off(&self, p: *const T, obs: &mut Obs) -> usize {
+    fn off<E>(&self, p: *const E, obs: &mut Obs) -> usize {
         let p = p as usize;
-        if p < self.base || (p - self.base) % SZ != 0 || (p - self.base) / SZ >= self.len {
-            obs.bad_address = Some(format!("address {p:#x} is not an element of the backing slice at {:#x} (len {})", self.base, self.len));
+        if p < self.base || (p - self.base) % self.sz != 0 || (p - self.base) / self.sz >= self.len {
+            obs.bad = Some(format!("address {p:#x} is not an element of the backing slice at {:#x} (len {})", self.base, self.len));
             return usize::MAX;
         }
-        (p - self.base) / SZ
+        (p - self.base) / self.sz
     }
 }
 
-fn observe_ref(s: DynRef<'_>, case: &Case) -> Obs {
+fn ids<E: Elem>(data: &[E]) -> Vec<T> {
+    data.iter().map(|x| x.id()).collect()
+}
+
+fn observe_ref<E: Elem>(s: DynRef<'_, E>, case: &Case) -> Obs {
     let mut obs = Obs { height: s.height(), width: s.width(), is_empty: s.is_empty(), ..Obs::default() };
     let addr = Addr::of(s.data());
     match case.acc.as_str() {
         "grid" => {
             for r in 0..obs.height + 2 {
                 for c in 0..obs.width + 2 {
-                    let g = s.get(Position::new(r, c)).map(|x| (x as *const T, *x));
+                    let g = s.get(Position::new(r, c)).map(|x| (x as *const E, x.id()));
                     let g = g.map(|(p, v)| (addr.off(p, &mut obs), v));
                     obs.grid.push(g);
                 }
             }
-            obs.grid_mut = obs.grid.clone();
         }
         "iter" => {
-            let refs: Vec<&T> = s.iter().collect();
+            let refs: Vec<&E> = s.iter().collect();
             for x in refs {
-                let o = addr.off(x as *const T, &mut obs);
-                obs.items.push(Some((o, *x)));
+                let o = addr.off(x as *const E, &mut obs);
+                obs.items.push(Some((o, x.id())));
             }
             obs.positions = s.iter().with_position().map(|(p, _)| (p.row, p.col)).collect();
         }
         "nth" => {
             let mut it = s.iter();
             for &k in &case.args {
-                let g = it.nth(k).map(|x| (x as *const T, *x));
+                let g = it.nth(k).map(|x| (x as *const E, x.id()));
                 let g = g.map(|(p, v)| (addr.off(p, &mut obs), v));
                 obs.items.push(g);
             }
@@ -388,55 +495,61 @@ fn observe_ref(s: DynRef<'_>, case: &Case) -> Obs {
         "map" => {
             let mut calls = Vec::new();
             let m = s.map(|pos, x| {
-                calls.push((pos.row, pos.col, x as *const T));
-                tf(pos.row, pos.col, *x)
+                calls.push((pos.row, pos.col, x as *const E));
+                E::mk(tf(pos.row, pos.col, x.id()))
             });
             obs.calls = calls.into_iter().map(|(r, c, p)| (r, c, addr.off(p, &mut obs))).collect();
             obs.mapped_size = (m.height(), m.width());
-            obs.mapped = m.to_vec();
+            obs.mapped = ids(&m.to_vec());
         }
         "toowned" => {
             let m = s.to_owned_surf();
             obs.mapped_size = (m.height(), m.width());
-            obs.mapped = m.to_vec();
+            obs.mapped = ids(&m.to_vec());
         }
         other => panic!("unknown accessor {other}"),
     }
-    obs.canvas = s.data().to_vec();
+    obs.canvas = ids(s.data());
     obs
 }
 
-fn observe_mut(mut s: DynMut<'_>, case: &Case) -> Obs {
+fn observe_mut<E: Elem>(mut s: DynMut<'_, E>, case: &Case) -> Obs {
     let mut obs = Obs { height: s.height(), width: s.width(), is_empty: s.is_empty(), ..Obs::default() };
     let addr = Addr::of(s.data());
     match case.acc.as_str() {
         "grid" => {
             for r in 0..obs.height + 2 {
                 for c in 0..obs.width + 2 {
-                    let g = s.get(Position::new(r, c)).map(|x| (x as *const T, *x));
+                    let g = s.get(Position::new(r, c)).map(|x| (x as *const E, x.id()));
                     let g = g.map(|(p, v)| (addr.off(p, &mut obs), v));
                     obs.grid.push(g);
-                    let g = s.get_mut(Position::new(r, c)).map(|x| (x as *const T, *x));
+                }
+            }
+        }
+        "gridmut" => {
+            for r in 0..obs.height + 2 {
+                for c in 0..obs.width + 2 {
+                    let g = s.get_mut(Position::new(r, c)).map(|x| (x as *const E, x.id()));
                     let g = g.map(|(p, v)| (addr.off(p, &mut obs), v));
-                    obs.grid_mut.push(g);
+                    obs.grid.push(g);
                 }
             }
         }
         "iter" => {
-            let refs: Vec<&T> = s.iter().collect();
+            let refs: Vec<&E> = s.iter().collect();
             for x in refs {
-                let o = addr.off(x as *const T, &mut obs);
-                obs.items.push(Some((o, *x)));
+                let o = addr.off(x as *const E, &mut obs);
+                obs.items.push(Some((o, x.id())));
             }
             obs.positions = s.iter().with_position().map(|(p, _)| (p.row, p.col)).collect();
         }
         "itermut" => {
             // all `&mut` are alive at the same time, then each is written with its own value
-            let refs: Vec<&mut T> = s.iter_mut().collect();
+            let refs: Vec<&mut E> = s.iter_mut().collect();
             for (k, x) in refs.into_iter().enumerate() {
-                let v = *x;
-                *x = 5000 + k as T;
-                let o = addr.off(x as *const T, &mut obs);
+                let v = x.id();
+                *x = E::mk(5000 + k as T);
+                let o = addr.off(x as *const E, &mut obs);
                 obs.items.push(Some((o, v)));
             }
             obs.positions = s.iter_mut().with_position().map(|(p, _)| (p.row, p.col)).collect();
@@ -444,14 +557,14 @@ fn observe_mut(mut s: DynMut<'_>, case: &Case) -> Obs {
         "nth" => {
             let mut it = s.iter();
             for &k in &case.args {
-                let g = it.nth(k).map(|x| (x as *const T, *x));
+                let g = it.nth(k).map(|x| (x as *const E, x.id()));
                 let g = g.map(|(p, v)| (addr.off(p, &mut obs), v));
                 obs.items.push(g);
             }
         }
         "nthmut" => {
             let mut it = s.iter_mut();
-            let mut refs: Vec<Option<&mut T>> = Vec::new();
+            let mut refs: Vec<Option<&mut E>> = Vec::new();
             for &k in &case.args {
                 refs.push(it.nth(k));
             }
@@ -459,83 +572,103 @@ fn observe_mut(mut s: DynMut<'_>, case: &Case) -> Obs {
                 match x {
                     None => obs.items.push(None),
                     Some(x) => {
-                        let v = *x;
-                        *x = 6000 + j as T;
-                        let o = addr.off(x as *const T, &mut obs);
+                        let v = x.id();
+                        *x = E::mk(6000 + j as T);
+                        let o = addr.off(x as *const E, &mut obs);
                         obs.items.push(Some((o, v)));
                     }
                 }
             }
         }
-        "fill" => s.fill(case.args[0] as T),
+        "fill" => s.fill(E::mk(case.args[0] as T)),
         "clear" => s.clear(),
         "fillwith" => {
             let mut calls = Vec::new();
             s.fill_with(|pos, x| {
-                calls.push((pos.row, pos.col, x));
-                tf(pos.row, pos.col, x)
+                calls.push((pos.row, pos.col, x.id()));
+                E::mk(tf(pos.row, pos.col, x.id()))
             });
             // the value passed in identifies the cell: initially data[i] = i + 1
             obs.calls = calls.into_iter().map(|(r, c, x)| (r, c, (x as usize).wrapping_sub(1))).collect();
         }
-        "insert" | "insertwrap" => {
-            s.insert(Position::new(case.args[0], case.args[1]), case.items.iter().copied());
+        "insert" | "insertwrap" | "inserthuge" => {
+            s.insert(Position::new(case.args[0], case.args[1]), case.items.iter().map(|&v| E::mk(v)));
         }
         "set" => {
-            let old = s.set(Position::new(case.args[0], case.args[1]), 4242);
-            obs.mapped = vec![old];
+            let old = s.set(Position::new(case.args[0], case.args[1]), E::mk(4242));
+            obs.mapped = vec![old.id()];
         }
         "map" => {
             let mut calls = Vec::new();
             let m = s.map(|pos, x| {
-                calls.push((pos.row, pos.col, x as *const T));
-                tf(pos.row, pos.col, *x)
+                calls.push((pos.row, pos.col, x as *const E));
+                E::mk(tf(pos.row, pos.col, x.id()))
             });
             obs.calls = calls.into_iter().map(|(r, c, p)| (r, c, addr.off(p, &mut obs))).collect();
             obs.mapped_size = (m.height(), m.width());
-            obs.mapped = m.to_vec();
+            obs.mapped = ids(&m.to_vec());
         }
         "toowned" => {
             let m = s.to_owned_surf();
             obs.mapped_size = (m.height(), m.width());
-            obs.mapped = m.to_vec();
+            obs.mapped = ids(&m.to_vec());
         }
         other => panic!("unknown accessor {other}"),
     }
-    obs.canvas = s.data().to_vec();
+    obs.canvas = ids(s.data());
     obs
 }
 
 fn is_mut_acc(acc: &str) -> bool {
-    matches!(acc, "itermut" | "nthmut" | "fill" | "clear" | "fillwith" | "insert" | "insertwrap" | "set")
+    matches!(acc, "gridmut" | "itermut" | "nthmut" | "fill" | "clear" | "fillwith" | "insert" | "insertwrap" | "inserthuge" | "set")
 }
 
-/// run one case on the implementation; `Err` = panic
-fn run_impl(case: &Case, mutable: bool) -> Result<Obs, ()> {
-    guarded(|| {
-        let mut root = new_root(case.h, case.w);
+/// run one case on the implementation with element type `E`; `Err` = panic whose effect on the parent
+/// cannot be inspected (the root was moved into the chain)
+fn run_impl_e<E: Elem>(case: &Case, mutable: bool) -> Result<Obs, ()> {
+    let live0 = E::live();
+    let r = guarded(|| {
+        let mut root = new_root::<E>(case.h, case.w, case.extra);
         let mut res: Option<Obs> = None;
         if mutable {
             if case.root_kind == 0 {
-                chain_mut(Box::new(root), &case.steps, &mut |s| res = Some(observe_mut(s, case)));
+                chain_mut::<E>(Box::new(root), &case.steps, &mut |s| res = Some(observe_mut(s, case)));
             } else {
-                chain_mut(Box::new(&mut root), &case.steps, &mut |s| res = Some(observe_mut(s, case)));
+                let r = guarded(|| chain_mut::<E>(Box::new(&mut root), &case.steps, &mut |s| res = Some(observe_mut(s, case))));
                 // the parent itself is the authority on what was changed
-                if let Some(obs) = res.as_mut() {
-                    let canvas = root.to_vec();
-                    if canvas != obs.canvas {
-                        obs.bad_address = Some("data() of the view differs from the parent's cells".to_string());
+                let canvas = ids(root.data());
+                match (r, res.as_mut()) {
+                    (Ok(()), Some(obs)) => {
+                        if canvas != obs.canvas {
+                            obs.bad = Some("data() of the view differs from the parent's cells".to_string());
+                        }
+                        obs.canvas = canvas;
                     }
-                    obs.canvas = canvas;
+                    _ => res = Some(Obs { panicked: true, canvas, ..Obs::default() }),
                 }
             }
         } else if case.root_kind == 0 {
-            chain_ref(Box::new(root), &case.steps, &mut |s| res = Some(observe_ref(s, case)));
+            chain_ref::<E>(Box::new(root), &case.steps, &mut |s| res = Some(observe_ref(s, case)));
         } else {
-            chain_ref(Box::new(&root), &case.steps, &mut |s| res = Some(observe_ref(s, case)));
+            chain_ref::<E>(Box::new(&root), &case.steps, &mut |s| res = Some(observe_ref(s, case)));
         }
         res.expect("continuation was not called")
+    });
+    let live1 = E::live();
+    r.map(|mut obs| {
+        if live1 != live0 {
+            obs.bad = Some(format!("constructions minus drops of cells changed by {} over the whole case (leak or double drop)", live1 - live0));
+        }
+        obs
     })
+}
+
+fn run_impl(case: &Case, mutable: bool) -> Result<Obs, ()> {
+    match case.elem {
+        0 => run_impl_e::<u32>(case, mutable),
+        1 => run_impl_e::<Odd5>(case, mutable),
+        _ => run_impl_e::<Counted>(case, mutable),
+    }
 }
 
 // ---------------------------------------------------------------------------------------------
@@ -556,19 +689,32 @@ fn show_off(c: &Option<(usize, T)>) -> String {
         Some((o, _)) => format!("{o}"),
     }
 }
+fn sorted<X: Ord + Clone>(l: &[X]) -> Vec<X> {
+    let mut v = l.to_vec();
+    v.sort();
+    v
+}
 
 fn request(case: &Case) -> String {
-    let head = format!("c07 {} {} {} {}", if case.acc == "insertwrap" { "insert" } else { &case.acc }, case.h, case.w, case.chain_token());
+    let op = match case.acc.as_str() {
+        "insertwrap" | "inserthuge" => "insert",
+        a => a,
+    };
+    let head = format!("c07 {op} {} {} {} {}", case.h, case.w, case.extra, case.chain_token());
     match case.acc.as_str() {
         "nth" | "nthmut" => format!("{head} {}", join(&case.args)),
         "fill" => format!("{head} {}", case.args[0]),
-        "insert" | "insertwrap" => format!("{head} {} {} {}", case.args[0], case.args[1], join(&case.items)),
+        "insert" | "insertwrap" | "inserthuge" => format!("{head} {} {} {}", case.args[0], case.args[1], join(&case.items)),
+        "set" => format!("{head} {} {} 4242", case.args[0], case.args[1]),
         _ => head,
     }
 }
 
 fn answer(case: &Case, obs: &Result<Obs, ()>) -> String {
     let Ok(obs) = obs else { return "panic".to_string() };
+    if obs.panicked {
+        return "panic".to_string();
+    }
     match case.acc.as_str() {
         // the extents of a window without cells are not compared with the model (the property does not fix them)
         "grid" if obs.height * obs.width == 0 => format!("empty {}", obs.is_empty as u8),
@@ -579,11 +725,15 @@ fn answer(case: &Case, obs: &Result<Obs, ()>) -> String {
             obs.is_empty as u8,
             join(&obs.grid.iter().map(show_cell).collect::<Vec<_>>())
         ),
+        "gridmut" if obs.height * obs.width == 0 => "empty".to_string(),
+        "gridmut" => join(&obs.grid.iter().map(show_cell).collect::<Vec<_>>()),
         "iter" | "nth" => join(&obs.items.iter().map(show_cell).collect::<Vec<_>>()),
         "itermut" | "nthmut" => join(&obs.items.iter().map(show_off).collect::<Vec<_>>()),
-        "fill" | "clear" | "insert" | "insertwrap" => join(&obs.canvas),
-        "fillwith" => format!("{} {}", join(&obs.canvas), join(&obs.calls.iter().map(|c| c.2).collect::<Vec<_>>())),
-        "map" => format!("{} {}", join(&obs.mapped), join(&obs.calls.iter().map(|c| c.2).collect::<Vec<_>>())),
+        "fill" | "clear" | "insert" | "insertwrap" | "inserthuge" => join(&obs.canvas),
+        // the order of the closure calls is not compared: offsets sorted
+        "fillwith" => format!("{} {}", join(&obs.canvas), join(&sorted(&obs.calls.iter().map(|c| c.2).collect::<Vec<_>>()))),
+        "map" => format!("{} {}", join(&obs.mapped), join(&sorted(&obs.calls.iter().map(|c| c.2).collect::<Vec<_>>()))),
+        "set" => format!("{} {}", join(&obs.canvas), join(&obs.mapped)),
         _ => String::new(),
     }
 }
@@ -591,32 +741,50 @@ fn answer(case: &Case, obs: &Result<Obs, ()>) -> String {
 // ---------------------------------------------------------------------------------------------
 // the property oracle
 // ---------------------------------------------------------------------------------------------
+/// does `insert` at this position overflow `usize` when it computes the row-major index?
+fn insert_index(row: usize, col: usize, ws: usize) -> Option<usize> {
+    row.checked_mul(ws)?.checked_add(col)
+}
+
 /// returns a description of the first way in which the observation contradicts the property
 fn judge(case: &Case, win: &Mat, obs: &Result<Obs, ()>) -> Option<(String, Value, Value)> {
     let Ok(obs) = obs else {
         return Some(("operation panics".to_string(), json!("no panic"), json!("panic")));
     };
-    if let Some(b) = &obs.bad_address {
-        return Some(("reference outside of the parent's cells".to_string(), json!("address of a parent cell"), json!(b)));
+    let bad = |what: &str, e: Value, g: Value| Some((what.to_string(), e, g));
+    if let Some(b) = &obs.bad {
+        return bad("reference outside of the parent's cells / cells leaked or dropped twice", json!("address of a parent cell, balanced drops"), json!(b));
     }
-    let n = case.h * case.w;
+    let n = case.cells();
     let init: Vec<T> = (0..n).map(|i| (i + 1) as T).collect();
     let flat: Vec<usize> = win.iter().flatten().copied().collect();
     let (hs, ws) = if win.is_empty() { (0, 0) } else { (win.len(), win[0].len()) };
-    let bad = |what: &str, e: Value, g: Value| Some((what.to_string(), e, g));
+    if obs.panicked {
+        // a panic is what the property allows only where a position outside of the window is written to
+        let allowed = match case.acc.as_str() {
+            "set" => !(case.args[0] < hs && case.args[1] < ws),
+            // the row-major index of the position does not fit usize: arithmetic overflow (debug profile)
+            "inserthuge" => true,
+            _ => false,
+        };
+        if !allowed {
+            return bad("operation panics", json!("no panic"), json!("panic"));
+        }
+        if obs.canvas != init {
+            return bad("a panicking operation changed the parent", json!(init), json!(obs.canvas));
+        }
+        return None;
+    }
     if !win.is_empty() && (obs.height, obs.width) != (hs, ws) {
         return bad("height/width differ from the window selected on a plain matrix", json!([hs, ws]), json!([obs.height, obs.width]));
     }
     if win.is_empty() && obs.height * obs.width != 0 {
         return bad("height x width is not zero although the chain selects no cell", json!(0), json!([obs.height, obs.width]));
     }
-    if obs.is_empty != win.is_empty() {
-        return bad("is_empty differs from the window selected on a plain matrix", json!(win.is_empty()), json!(obs.is_empty));
-    }
     // expected canvas unless the accessor mutates
     let mut canvas = init.clone();
     match case.acc.as_str() {
-        "grid" => {
+        "grid" | "gridmut" => {
             let mut exp = Vec::new();
             for r in 0..obs.height + 2 {
                 for c in 0..obs.width + 2 {
@@ -624,12 +792,8 @@ fn judge(case: &Case, win: &Mat, obs: &Result<Obs, ()>) -> Option<(String, Value
                 }
             }
             if obs.grid != exp {
-                return bad("get: cells read through the view differ from the matrix window (or a position outside is not absent)",
+                return bad("get/get_mut: cells reached through the view differ from the matrix window (or a position outside is not absent)",
                     json!(exp.iter().map(show_cell).collect::<Vec<_>>()), json!(obs.grid.iter().map(show_cell).collect::<Vec<_>>()));
-            }
-            if obs.grid_mut != exp {
-                return bad("get_mut: cells reached through the view differ from the matrix window (or a position outside is not absent)",
-                    json!(exp.iter().map(show_cell).collect::<Vec<_>>()), json!(obs.grid_mut.iter().map(show_cell).collect::<Vec<_>>()));
             }
         }
         "iter" | "itermut" => {
@@ -653,16 +817,21 @@ fn judge(case: &Case, win: &Mat, obs: &Result<Obs, ()>) -> Option<(String, Value
             }
         }
         "nth" | "nthmut" => {
+            // Iterator::nth: skip k, yield the next; the position can only move forward (and stops at usize::MAX)
             let mut p = 0usize;
             let mut exp = Vec::new();
             for &k in &case.args {
-                p += k;
-                exp.push(flat.get(p).map(|&id| (id, init[id])));
-                p += 1;
+                p = p.saturating_add(k);
+                exp.push(if p == usize::MAX { None } else { flat.get(p).map(|&id| (id, init[id])) });
+                p = p.saturating_add(1);
             }
             if obs.items != exp {
                 return bad("Iterator::nth does not skip/yield the window's cells in row-major order",
                     json!(exp.iter().map(show_cell).collect::<Vec<_>>()), json!(obs.items.iter().map(show_cell).collect::<Vec<_>>()));
+            }
+            let mut seen = std::collections::HashSet::new();
+            if !obs.items.iter().flatten().all(|x| seen.insert(x.0)) {
+                return bad("iterator handed out two references to the same cell", json!("distinct addresses"), json!(obs.items.iter().map(show_off).collect::<Vec<_>>()));
             }
             if case.acc == "nthmut" {
                 for (j, e) in exp.iter().enumerate() {
@@ -682,21 +851,24 @@ fn judge(case: &Case, win: &Mat, obs: &Result<Obs, ()>) -> Option<(String, Value
                     exp.push((r, c, id));
                 }
             }
-            if obs.calls != exp {
-                return bad("fill_with does not call the function once per cell of the window in row-major order", json!(exp), json!(obs.calls));
+            // every cell of the window exactly once, with its own position; the order is not demanded
+            if sorted(&obs.calls) != sorted(&exp) {
+                return bad("fill_with does not call the function exactly once per cell of the window with the cell's position", json!(exp), json!(obs.calls));
             }
         }
         "insert" => {
             // position inside the window or below it (col < width): items go to the cells from there on in row-major order
-            let index = case.args[0] * ws + case.args[1];
-            for (j, &v) in case.items.iter().enumerate() {
-                if let Some(&id) = flat.get(index + j) {
-                    canvas[id] = v;
+            if let Some(index) = insert_index(case.args[0], case.args[1], ws) {
+                for (j, &v) in case.items.iter().enumerate() {
+                    if let Some(&id) = index.checked_add(j).and_then(|i| flat.get(i)) {
+                        canvas[id] = v;
+                    }
                 }
             }
         }
-        "insertwrap" => {
-            // column beyond the window: the property only demands that nothing outside the window changes
+        "insertwrap" | "inserthuge" => {
+            // column beyond the window, or a position whose row-major index does not fit usize: the
+            // property only demands that nothing outside of the window changes
             for (i, v) in obs.canvas.iter().enumerate() {
                 if !flat.contains(&i) && *v != init[i] {
                     return bad("insert changed a cell outside of the window", json!(init), json!(obs.canvas));
@@ -705,6 +877,12 @@ fn judge(case: &Case, win: &Mat, obs: &Result<Obs, ()>) -> Option<(String, Value
             return None;
         }
         "set" => {
+            if !(case.args[0] < hs && case.args[1] < ws) {
+                let outside = obs.canvas.iter().enumerate().any(|(i, v)| !flat.contains(&i) && *v != init[i]);
+                return bad(
+                    if outside { "set at a position outside of the window wrote to a cell outside of the window" } else { "set at a position outside of the window is not refused" },
+                    json!("panic, parent unchanged"), json!(obs.canvas));
+            }
             let id = win[case.args[0]][case.args[1]];
             canvas[id] = 4242;
             if obs.mapped != vec![init[id]] {
@@ -723,8 +901,8 @@ fn judge(case: &Case, win: &Mat, obs: &Result<Obs, ()>) -> Option<(String, Value
             if obs.mapped != exp || (!win.is_empty() && obs.mapped_size != (hs, ws)) {
                 return bad("map/to_owned_surf does not produce the window's cells", json!({"data": exp, "size": [hs, ws]}), json!({"data": obs.mapped, "size": obs.mapped_size}));
             }
-            if case.acc == "map" && obs.calls != calls {
-                return bad("map does not read each cell of the window once in row-major order", json!(calls), json!(obs.calls));
+            if case.acc == "map" && sorted(&obs.calls) != sorted(&calls) {
+                return bad("map does not read each cell of the window exactly once with the cell's position", json!(calls), json!(obs.calls));
             }
         }
         _ => {}
@@ -736,6 +914,7 @@ fn judge(case: &Case, win: &Mat, obs: &Result<Obs, ()>) -> Option<(String, Value
     }
     None
 }
+
 
 // ---------------------------------------------------------------------------------------------
 // generation
@@ -868,30 +1047,131 @@ fn corner_chains() -> Vec<(usize, usize, Vec<Op>)> {
     ]
 }
 
+const ZST: u8 = 3;
+impl Elem for () {
+    fn mk(_: T) -> Self {}
+    fn id(&self) -> T {
+        0
+    }
+}
+
+/// zero-sized cells: all addresses coincide and cells carry no value, so only presence, counts, positions
+/// and the absence of panics can be judged
+fn zst_check(case: &Case, win: &Mat) -> Option<(String, Value, Value)> {
+    let (hs, ws) = if win.is_empty() { (0, 0) } else { (win.len(), win[0].len()) };
+    let cells = hs * ws;
+    let pos: Vec<(usize, usize)> = (0..hs).flat_map(|r| (0..ws).map(move |c| (r, c))).collect();
+    let mut verdict: Option<(String, Value, Value)> = None;
+    let r = guarded(|| {
+        let root = SurfaceOwned::<()>::new(Size::new(case.h, case.w));
+        chain_mut::<()>(Box::new(root), &case.steps, &mut |mut s| {
+            let mut bad = |what: &str, e: Value, g: Value| {
+                if verdict.is_none() {
+                    verdict = Some((format!("zero-sized cells: {what}"), e, g));
+                }
+            };
+            let (h, w) = (s.height(), s.width());
+            if (cells > 0 && (h, w) != (hs, ws)) || (cells == 0 && h * w != 0) {
+                bad("height/width differ from the matrix window", json!([hs, ws]), json!([h, w]));
+            }
+            for r in 0..h + 2 {
+                for c in 0..w + 2 {
+                    let inside = r < hs && c < ws;
+                    if s.get(Position::new(r, c)).is_some() != inside || s.get_mut(Position::new(r, c)).is_some() != inside {
+                        bad("get/get_mut presence differs from the window", json!(inside), json!([r, c]));
+                    }
+                }
+            }
+            if s.iter().count() != cells || s.iter_mut().count() != cells {
+                bad("iteration does not yield height x width items", json!(cells), json!([s.iter().count(), s.iter_mut().count()]));
+            }
+            let p: Vec<(usize, usize)> = s.iter_mut().with_position().map(|(p, _)| (p.row, p.col)).collect();
+            if p != pos {
+                bad("with_position is not row-major over the window", json!(pos), json!(p));
+            }
+            let mut it = s.iter_mut();
+            let mut at = 0usize;
+            for &k in &case.args {
+                at = at.saturating_add(k);
+                let got = it.nth(k).is_some();
+                if got != (at < cells) {
+                    bad("Iterator::nth yields beyond / stops before the window's cells", json!(at < cells), json!(got));
+                }
+                at = at.saturating_add(1);
+            }
+            let mut calls = Vec::new();
+            s.fill_with(|p, _| calls.push((p.row, p.col)));
+            if sorted(&calls) != pos {
+                bad("fill_with does not visit each cell of the window once", json!(pos), json!(calls));
+            }
+            let mut calls = Vec::new();
+            let m = s.map(|p, _| calls.push((p.row, p.col)));
+            if sorted(&calls) != pos || m.to_vec().len() != cells {
+                bad("map does not visit each cell of the window once", json!(pos), json!(calls));
+            }
+            s.fill(());
+            s.clear();
+            s.insert(Position::new(hs / 2, 0), std::iter::repeat_n((), cells + 2));
+            if s.data().len() != case.h * case.w {
+                bad("the parent changed its length", json!(case.h * case.w), json!(s.data().len()));
+            }
+            let outside = guarded(|| s.set(Position::new(hs, 0), ())).is_err();
+            if !outside {
+                bad("set below the window is not refused", json!("panic"), json!("returned"));
+            }
+            if cells > 0 && guarded(|| s.set(Position::new(hs - 1, ws - 1), ())).is_err() {
+                bad("set inside the window panics", json!("no panic"), json!("panic"));
+            }
+        });
+    });
+    if r.is_err() && verdict.is_none() {
+        verdict = Some(("zero-sized cells: operation panics".to_string(), json!("no panic"), json!("panic")));
+    }
+    verdict
+}
+
 struct Ctx {
     out: Out,
+    /// name of the build profile the cases run in ("debug" in the main run)
+    profile: &'static str,
 }
 
 impl Ctx {
     /// one (chain, accessor) evaluation
     fn eval(&mut self, case: &Case) {
+        let win = spec_window(case);
+        if case.elem == ZST {
+            self.out.case(&format!("zst {} {} {}", case.h, case.w, case.chain_token()), !win.is_empty() && !case.steps.is_empty());
+            self.out.hist("acc:zst");
+            if let Some((what, exp, got)) = zst_check(case, &win) {
+                let mut input = case.to_json();
+                input["profile"] = json!(self.profile);
+                self.out.fail(&what, input, exp, got);
+            }
+            return;
+        }
         let mutable = is_mut_acc(&case.acc) || case.root_kind >= 2;
         let mut case = case.clone();
         case.root_kind %= 2;
-        let win = spec_window(&case);
+        if matches!(case.acc.as_str(), "set" | "inserthuge") {
+            // a panic is a possible outcome: the parent has to stay inspectable
+            case.root_kind = 1;
+        }
         let obs = run_impl(&case, mutable);
         let ans = answer(&case, &obs);
         let req = request(&case);
         let nontrivial = !win.is_empty() && !case.steps.is_empty();
         self.out.case(&format!("{req} {ans}"), nontrivial);
         self.out.hist(&format!("acc:{}", case.acc));
-        if !matches!(case.acc.as_str(), "insertwrap" | "set" | "toowned") {
+        self.out.hist(&format!("elem:{}", ELEMS[case.elem as usize]));
+        if !matches!(case.acc.as_str(), "insertwrap" | "inserthuge" | "toowned") {
             self.out.corr(&req, &ans);
         }
         if let Some((what, exp, got)) = judge(&case, &win, &obs) {
             let mut input = case.to_json();
             input["mutable_carrier"] = json!(mutable);
             input["request"] = json!(req);
+            input["profile"] = json!(self.profile);
             self.out.fail(&format!("{}: {what}", case.acc), input, exp, got);
         }
         if case.acc == "grid" {
@@ -907,33 +1187,53 @@ impl Ctx {
                     }
                 }
                 let shown = if rows.is_empty() { "-".to_string() } else { rows.join(";") };
-                self.out.oracle(&format!("c07 spec {} {} {}", case.h, case.w, case.chain_token()), &shown);
+                self.out.oracle(&format!("c07 spec {} {} {} {}", case.h, case.w, case.extra, case.chain_token()), &shown);
             }
         }
     }
 
     /// all accessors for one chain; every accessor runs on a fresh root with its own carrier mix
-    fn chain(&mut self, rng: &mut Rng, h: usize, w: usize, ops: &[Op]) {
-        let win = {
-            let c = Case { h, w, steps: ops.iter().map(|&op| Step { op, kind: 0 }).collect(), root_kind: 0, acc: String::new(), args: vec![], items: vec![] };
-            spec_window(&c)
-        };
+    fn chain(&mut self, rng: &mut Rng, h: usize, w: usize, extra: usize, elem: u8, ops: &[Op]) {
+        let proto = Case { h, w, extra, elem, steps: ops.iter().map(|&op| Step { op, kind: 0 }).collect(), root_kind: 0, acc: String::new(), args: vec![], items: vec![] };
+        let win = spec_window(&proto);
         let (hs, ws) = if win.is_empty() { (0, 0) } else { (win.len(), win[0].len()) };
         let cells = hs * ws;
         self.out.hist(&format!("chain-len:{}", ops.len()));
         self.out.hist(if cells == 0 { "window:empty" } else if cells == h * w { "window:whole" } else { "window:proper" });
         self.out.hist(&format!("transposes:{}", ops.iter().filter(|o| **o == Op::Transpose).count()));
-        let accs = ["grid", "grid", "iter", "iter", "itermut", "nth", "nth", "nthmut", "fill", "clear", "fillwith", "insert", "insertwrap", "map", "map", "toowned", "set"];
-        for (i, acc) in accs.iter().enumerate() {
+        self.out.hist(if h * w > 300 { "root:300+cells" } else if h > 6 || w > 6 { "root:upto20x20" } else { "root:upto6x6" });
+        self.out.hist(if extra > 0 { "root:from_vec" } else { "root:new_with" });
+        const MAX: usize = usize::MAX;
+        let accs = [
+            "grid", "grid+", "gridmut", "iter", "iter+", "itermut", "nth", "nth+", "nthmut", "nthmut!", "nth!", "fill", "clear", "fillwith",
+            "insert", "insert!", "inserthuge", "insertwrap", "map", "map+", "toowned", "set", "set!",
+        ];
+        for acc in accs.iter() {
             let steps: Vec<Step> = ops.iter().map(|&op| Step { op, kind: rng.below(60) as u8 }).collect();
-            // immutable accessors run alternately on shared and on mutable carriers
-            let root_kind = match *acc {
-                "grid" | "iter" | "nth" | "map" => rng.below(2) as u8 + if i % 2 == 1 || *acc == "map" && i == 14 { 2 } else { 0 },
-                "toowned" => rng.below(4) as u8,
-                _ => rng.below(2) as u8,
+            // `+`: immutable accessor on mutable carriers; `!`: caller-supplied extremes
+            let (name, flag) = match acc.strip_suffix('+') {
+                Some(n) => (n, '+'),
+                None => match acc.strip_suffix('!') {
+                    Some(n) => (n, '!'),
+                    None => (*acc, ' '),
+                },
             };
-            let mut case = Case { h, w, steps, root_kind, acc: acc.to_string(), args: vec![], items: vec![] };
-            match *acc {
+            let root_kind = rng.below(2) as u8 + if flag == '+' || (name == "toowned" && rng.chance(1, 2)) { 2 } else { 0 };
+            let mut case = Case { steps, root_kind, acc: name.to_string(), ..proto.clone() };
+            match name {
+                "nth" | "nthmut" if flag == '!' => {
+                    // saturation of the iterator index: nothing may be yielded twice or after usize::MAX
+                    let k = rng.below(cells as u64 + 2) as usize;
+                    case.args = match rng.below(7) {
+                        0 => vec![MAX],
+                        1 => vec![0, MAX, 0],
+                        2 => vec![k, MAX - rng.below(cells as u64 + 3) as usize, 0, 0],
+                        3 => vec![MAX, MAX, 0],
+                        4 => vec![0, MAX - 1, 0, 1],
+                        5 => vec![k, MAX - k, 0],
+                        _ => vec![0, 0, MAX - 2, 0],
+                    };
+                }
                 "nth" | "nthmut" => {
                     let calls = 1 + rng.below(5) as usize;
                     for _ in 0..calls {
@@ -947,25 +1247,65 @@ impl Ctx {
                 }
                 "fill" => case.args.push(7777),
                 "insert" => {
-                    let r = rng.below(hs as u64 + 2) as usize;
+                    let mut r = rng.below(hs as u64 + 2) as usize;
                     let c = if ws == 0 { 0 } else { rng.below(ws as u64) as usize };
+                    if flag == '!' && ws == 0 {
+                        // a window without cells: its extents are not fixed by the property, so whether the
+                        // index computation overflows is not either — judged for safety only
+                        case.acc = "inserthuge".to_string();
+                        r = usize::MAX - rng.below(4) as usize;
+                    } else if flag == '!' {
+                        // far below the window, the row-major index still fits usize
+                        r = match rng.below(3) {
+                            0 => MAX / ws.max(1) - 1 - rng.below(3) as usize,
+                            1 => 1usize << (20 + rng.below(30)),
+                            _ => hs + 2 + rng.below(1000) as usize,
+                        };
+                    }
                     case.args = vec![r, c];
                     let n = rng.below(cells as u64 + 4) as usize;
+                    case.items = (0..n).map(|j| 9000 + j as T).collect();
+                }
+                "inserthuge" => {
+                    // the row-major index of the position overflows usize (only possible for a window with cells)
+                    if ws == 0 {
+                        continue;
+                    }
+                    case.args = if ws == 1 {
+                        vec![MAX - rng.below(3) as usize, 3 + rng.below(3) as usize]
+                    } else {
+                        match rng.below(3) {
+                            0 => vec![MAX / ws + 1 + rng.below(3) as usize, rng.below(ws as u64) as usize],
+                            1 => vec![MAX, rng.below(ws as u64) as usize],
+                            // wraps to a small index when overflow is not checked
+                            _ => vec![(MAX / ws + 1).next_power_of_two().min(MAX / 2 + 1), 0],
+                        }
+                    };
+                    let n = 1 + rng.below(cells as u64 + 2) as usize;
                     case.items = (0..n).map(|j| 9000 + j as T).collect();
                 }
                 "insertwrap" => {
                     let r = rng.below(hs as u64 + 1) as usize;
-                    let c = ws + rng.below(3) as usize;
+                    let c = if rng.chance(1, 8) { MAX - rng.below(2) as usize } else { ws + rng.below(3) as usize };
+                    if insert_index(r, c, ws).is_none() {
+                        continue;
+                    }
                     case.args = vec![r, c];
                     let n = rng.below(cells as u64 + 4) as usize;
                     case.items = (0..n).map(|j| 9000 + j as T).collect();
                 }
-                "set" => {
-                    if cells == 0 {
-                        continue;
-                    }
-                    case.args = vec![rng.below(hs as u64) as usize, rng.below(ws as u64) as usize];
+                "set" if flag == '!' || cells == 0 => {
+                    // outside of the window; for proper windows mostly still inside the parent
+                    case.args = match rng.below(8) {
+                        0 => vec![MAX, 0],
+                        1 => vec![0, MAX],
+                        2 => vec![MAX, MAX],
+                        3 => vec![hs + rng.below(2) as usize, ws + rng.below(2) as usize],
+                        4 | 5 => vec![hs, rng.below(ws.max(1) as u64) as usize],
+                        _ => vec![rng.below(hs.max(1) as u64) as usize, ws],
+                    };
                 }
+                "set" => case.args = vec![rng.below(hs as u64) as usize, rng.below(ws as u64) as usize],
                 _ => {}
             }
             self.eval(&case);
@@ -1020,15 +1360,68 @@ fn miri_support(outdir: &std::path::Path) -> Value {
     Value::Object(res)
 }
 
+/// Every run (and replays of release-profile failures): the quick case list once more in a child built
+/// with the release profile — overflow checks and debug assertions off, as users of the crate run it. The
+/// child's oracle failures count as failures of this run (each carries its input and `"profile": "release"`).
+fn release_child(cfg: &Cfg, out: &mut Out, replay: bool) -> Value {
+    let manifest = env!("CARGO_MANIFEST_DIR");
+    let target = format!("{manifest}/target/release-c07");
+    let t0 = std::time::Instant::now();
+    let build = std::process::Command::new("cargo")
+        .args(["build", "--release", "--offline", "-q", "--bin", "c07"])
+        .current_dir(manifest)
+        .env("CARGO_TARGET_DIR", &target)
+        .output();
+    match build {
+        Ok(o) if o.status.success() => {}
+        Ok(o) => return json!({"status": "not-built", "detail": String::from_utf8_lossy(&o.stderr).chars().take(800).collect::<String>()}),
+        Err(e) => return json!({"status": "not-built", "detail": e.to_string()}),
+    }
+    let dir = cfg.outdir.join("release-child");
+    let mut cmd = std::process::Command::new(format!("{target}/release/c07"));
+    cmd.arg(&dir).env("VERIF_RELEASE_CHILD", "1").env("VERIF_TIER", "quick").env("VERIF_SEED", cfg.seed.to_string());
+    if !replay {
+        cmd.env_remove("VERIF_REPLAY");
+    }
+    let run = cmd.output();
+    let stats: Option<Value> = std::fs::read_to_string(dir.join("stats.json")).ok().and_then(|s| serde_json::from_str(&s).ok());
+    match (run, stats) {
+        (Ok(o), Some(stats)) if o.status.success() => {
+            for f in stats["oracle_failures"].as_array().cloned().unwrap_or_default() {
+                out.fail(&format!("[release profile] {}", f["what"].as_str().unwrap_or("")), f["input"].clone(), f["expected"].clone(), f["got"].clone());
+            }
+            json!({"status": "ran", "wall_s": t0.elapsed().as_secs(), "evaluations": stats["evaluations"], "oracle_failures": stats["oracle_failure_count"]})
+        }
+        (r, _) => {
+            let detail = match r {
+                Ok(o) => format!("exit {:?}: {}", o.status.code(), String::from_utf8_lossy(&o.stderr).chars().take(600).collect::<String>()),
+                Err(e) => e.to_string(),
+            };
+            out.fail("[release profile] the case list crashes the release build of the harness (aborted, not a panic)", json!({"profile": "release", "detail": detail}), json!("exit 0"), json!("crash"));
+            json!({"status": "crashed", "detail": detail})
+        }
+    }
+}
+
 fn main() {
     let cfg = Cfg::from_env();
     let out = cfg.out();
-    verif_harness::silence_panics();
-    let mut ctx = Ctx { out };
+    if std::env::var("VERIF_LOUD").is_err() {
+        verif_harness::silence_panics();
+    }
+    let child = std::env::var("VERIF_RELEASE_CHILD").is_ok();
+    let mut ctx = Ctx { out, profile: if child { "release" } else { "debug" } };
     if let Some(replay) = &cfg.replay {
-        if let Some(case) = Case::from_json(&replay["failure"]["input"]) {
+        let input = &replay["failure"]["input"];
+        if input["profile"].as_str() == Some("release") && !child {
+            let r = release_child(&cfg, &mut ctx.out, true);
+            ctx.out.extra("release_profile_child", r);
+            ctx.out.finish("replay of one recorded case in the release-profile child");
+            return;
+        }
+        if let Some(case) = Case::from_json(input) {
             let mut case = case;
-            if replay["failure"]["input"]["mutable_carrier"].as_bool() == Some(true) && !is_mut_acc(&case.acc) {
+            if input["mutable_carrier"].as_bool() == Some(true) && !is_mut_acc(&case.acc) {
                 case.root_kind += 2;
             }
             ctx.eval(&case);
@@ -1037,28 +1430,54 @@ fn main() {
         }
     }
     let mut rng = Rng::new(cfg.seed);
-    for (h, w, ops) in corner_chains() {
-        ctx.chain(&mut rng, h, w, &ops);
+    for (i, (h, w, ops)) in corner_chains().into_iter().enumerate() {
+        ctx.chain(&mut rng, h, w, if i % 4 == 3 { 1 + i % 3 } else { 0 }, (i % 3) as u8, &ops);
     }
     // VERIF_MIRI: the same case list, cut down, for a run under the Miri interpreter (see `miri_support`)
     let under_miri = std::env::var("VERIF_MIRI").is_ok();
-    let chains: u64 = if under_miri { 4 } else if cfg.thorough { 500_000 } else { 5_000 };
+    let chains: u64 = if under_miri { 4 } else if cfg.thorough { 300_000 } else { 4_000 };
     for i in 0..chains {
         // zero extents are kept, but rare enough that most chains have something to select from
-        let h = if rng.chance(1, 14) { 0 } else { 1 + rng.below(6) as usize };
-        let w = if rng.chance(1, 14) { 0 } else { 1 + rng.below(6) as usize };
+        let (h, w) = if cfg.thorough && i % 4000 == 1 {
+            // a few roots with more than 300 cells
+            (17 + rng.below(4) as usize, 18 + rng.below(3) as usize)
+        } else if cfg.thorough && rng.chance(1, 12) {
+            (1 + rng.below(20) as usize, 1 + rng.below(20) as usize)
+        } else {
+            (
+                if rng.chance(1, 14) { 0 } else { 1 + rng.below(6) as usize },
+                if rng.chance(1, 14) { 0 } else { 1 + rng.below(6) as usize },
+            )
+        };
+        let extra = if rng.chance(1, 5) { 1 + rng.below(3) as usize } else { 0 };
+        let elem = if rng.chance(1, if cfg.thorough { 3 } else { 6 }) { 1 + rng.below(2) as u8 } else { 0 };
         let steps = gen_chain(&mut rng, h, w, 5);
         let ops: Vec<Op> = steps.iter().map(|s| s.op).collect();
         if i % 997 == 0 {
-            let c = Case { h, w, steps: steps.clone(), root_kind: 0, acc: "grid".into(), args: vec![], items: vec![] };
-            ctx.out.sample(json!({"h": h, "w": w, "chain": c.chain_token(), "window": spec_window(&c)}));
+            let c = Case { h, w, extra, elem, steps: steps.clone(), root_kind: 0, acc: "grid".into(), args: vec![], items: vec![] };
+            ctx.out.sample(json!({"h": h, "w": w, "extra": extra, "elem": ELEMS[elem as usize], "chain": c.chain_token(), "window": spec_window(&c)}));
         }
-        ctx.chain(&mut rng, h, w, &ops);
+        ctx.chain(&mut rng, h, w, extra, elem, &ops);
     }
-    ctx.out.extra("element_type", json!({"type": "u32", "size_of": SZ}));
-    if cfg.thorough && !under_miri {
+    // zero-sized cells
+    let zst: u64 = if under_miri { 4 } else if cfg.thorough { 20_000 } else { 300 };
+    for _ in 0..zst {
+        let h = rng.below(7) as usize;
+        let w = rng.below(7) as usize;
+        let steps = gen_chain(&mut rng, h, w, 4);
+        let args = vec![rng.below(3) as usize, rng.below(4) as usize, if rng.chance(1, 3) { usize::MAX } else { 0 }, 0];
+        ctx.eval(&Case { h, w, extra: 0, elem: ZST, steps, root_kind: 0, acc: "zst".into(), args, items: vec![] });
+    }
+    ctx.out.extra("element_types", json!({"u32": 4, "odd5": std::mem::size_of::<Odd5>(), "counted": std::mem::size_of::<Counted>(), "zst": 0}));
+    ctx.out.extra("profile", json!(ctx.profile));
+    if !under_miri && !child {
+        // both tiers: the release build is cached, the run takes half a second
+        let r = release_child(&cfg, &mut ctx.out, false);
+        ctx.out.extra("release_profile_child", r);
+    }
+    if cfg.thorough && !under_miri && !child {
         let m = miri_support(&cfg.outdir);
         ctx.out.extra("miri_support_only", m);
     }
-    ctx.out.finish("corner chains + random chains: parents 0..=6 x 0..=6, at most 5 view/transpose steps, selectors of all 7 forms over all 10 integer types (bounds near the axis, near 0 and at the type's MIN/MAX), 17 accessor runs per chain each on a fresh parent with a random mix of carriers (owned, &, &mut, view, view_mut, view_owned, as_ref, as_mut, Arc, Box<dyn>); non-trivial = non-empty chain selecting a non-empty window; distinct by (request, answer)");
+    ctx.out.finish("corner chains + random chains: parents 0..=6 x 0..=6 (thorough: also up to 20 x 20 and some with more than 300 cells), new_with and from_vec roots, at most 5 view/transpose steps, selectors of all 7 forms over all 10 integer types (bounds near the axis, near 0 and at the type's MIN/MAX), 23 accessor runs per chain each on a fresh parent with a random mix of carriers (owned, &, &mut, view, view_mut, view_owned, as_ref, as_mut, parts()+new, Arc, Box<dyn>), element types u32 / 5-byte / drop-counting, plus chains over zero-sized cells; non-trivial = non-empty chain selecting a non-empty window; distinct by (request, answer)");
 }
